@@ -17,6 +17,7 @@ package server
 import (
 	"fmt"
 	"sync"
+	"time"
 )
 
 // Records represents a database record map.
@@ -36,7 +37,10 @@ func (rmap *Records) Keys() []string {
 	rmap.Range(func(key, value any) bool {
 		skey, ok := key.(string)
 		if ok {
-			keys = append(keys, skey)
+			// GetRecord removes the record if it has expired.
+			if _, ok := rmap.GetRecord(skey); ok {
+				keys = append(keys, skey)
+			}
 		}
 		return true
 	})
@@ -51,7 +55,7 @@ func (rmap *Records) SetRecord(record *Record) error {
 
 // HasRecord returns true if the database has the specified key record, otherwise false.
 func (rmap *Records) HasRecord(key string) bool {
-	_, ok := rmap.Load(key)
+	_, ok := rmap.GetRecord(key)
 	return ok
 }
 
@@ -62,6 +66,11 @@ func (rmap *Records) GetRecord(key string) (*Record, bool) {
 		return nil, false
 	}
 	record, ok := v.(*Record)
+	if ok && record.Expired(time.Now()) {
+		// An expired record is removed when it is accessed.
+		rmap.CompareAndDelete(key, v)
+		return nil, false
+	}
 	return record, ok
 }
 
